@@ -401,9 +401,38 @@ def verify_lemma(w, lem, prop, table=None):
 
 
 # ---------------------------------------------------------------------------- parallel driver
+JOB_TIMEOUT_S = int(os.environ.get('VERIF_JOB_TIMEOUT_S', '900'))
+
+
+class JobTimeout(BaseException):
+    pass
+
+
+def _alarm(signum, frame):
+    raise JobTimeout()
+
+
 def _worker(job):
+    import signal
     modname, kind, key = job
     t0 = time.time()
+    try:
+        signal.signal(signal.SIGALRM, _alarm)
+        signal.alarm(JOB_TIMEOUT_S)
+    except Exception:
+        pass
+    try:
+        return _worker_body(modname, kind, key, t0)
+    except JobTimeout:
+        return dict(job=key, error=f'CHECKER-ERROR job exceeded {JOB_TIMEOUT_S} s (symbolic execution did not terminate: treated as not analysable, never as a violation)', records=[])
+    finally:
+        try:
+            signal.alarm(0)
+        except Exception:
+            pass
+
+
+def _worker_body(modname, kind, key, t0):
     try:
         mod = __import__(modname, fromlist=['x'])
         out = mod.run_job(kind, key)
